@@ -115,7 +115,7 @@ def main():
         dst = os.path.join(VERIF, "seeded", name)
         os.makedirs(dst, exist_ok=True)
         for f in os.listdir(src):
-            if f in ("patch.diff", "demo.janet", "demo.sh", "notes.md"):
+            if f in ("patch.diff", "demo.janet", "demo.sh", "notes.md") and os.path.abspath(src) != os.path.abspath(dst):
                 shutil.copy(os.path.join(src, f), os.path.join(dst, f))
         with open(os.path.join(dst, "meta.json"), "w") as f:
             json.dump(meta, f, indent=1)
